@@ -1,10 +1,11 @@
 #!/bin/bash
 # usage: seedeval.sh <PROP> <N> <demo-dest-dir> <demo-run-regex> [check props...]
-# Confirms a sub-agent change (/tmp/seed/<PROP>/out/change<N>.diff + demo<N>_test.go) in a scratch worktree:
+# Confirms a sub-agent change ($SEEDROOT/<PROP>/out/change<N>.diff + demo<N>_test.go) in a scratch worktree:
 # builds, full suite passes, demo fails with the change and passes without; then runs my checks against it.
 set -u
 PROP=$1; N=$2; DEST=$3; RUN=$4; shift 4; CHECKS=${*:-$PROP}
-OUT=/tmp/seed/$PROP/out
+ROOT=${SEEDROOT:-/tmp/seed}
+OUT=$ROOT/$PROP/out
 W=/var/tmp/seedchk-$PROP-$N
 export GOFLAGS=-mod=mod GOPROXY=off
 git -C /repo worktree prune; rm -rf $W
@@ -16,15 +17,15 @@ go build ./... || { echo "RESULT does-not-build"; exit 2; }
 SUITE=$(go test -vet=off -count=1 ./... 2>&1 | grep -v "no test files" | grep -v "^ok" | head -5)
 [ -z "$SUITE" ] && echo "suite: passes with the change" || { echo "suite FAILS with the change: $SUITE"; echo "RESULT suite-fails"; exit 2; }
 mkdir -p $DEST; cp $OUT/demo${N}_test.go $DEST/zz_demo${N}_test.go
-if go test -vet=off -count=1 -run "$RUN" ./$DEST/ >/tmp/seed/demo-$PROP-$N-with.log 2>&1; then echo "demo PASSES with the change (unexpected)"; DEMO_WITH=pass; else echo "demo: fails with the change"; DEMO_WITH=fail; fi
+if go test -vet=off -count=1 -run "$RUN" ./$DEST/ >$ROOT/demo-$PROP-$N-with.log 2>&1; then echo "demo PASSES with the change (unexpected)"; DEMO_WITH=pass; else echo "demo: fails with the change"; DEMO_WITH=fail; fi
 git checkout -q -- . ; 
-if go test -vet=off -count=1 -run "$RUN" ./$DEST/ >/tmp/seed/demo-$PROP-$N-without.log 2>&1; then echo "demo: passes without the change"; DEMO_WO=pass; else echo "demo FAILS without the change (unexpected)"; DEMO_WO=fail; tail -5 /tmp/seed/demo-$PROP-$N-without.log; fi
+if go test -vet=off -count=1 -run "$RUN" ./$DEST/ >$ROOT/demo-$PROP-$N-without.log 2>&1; then echo "demo: passes without the change"; DEMO_WO=pass; else echo "demo FAILS without the change (unexpected)"; DEMO_WO=fail; tail -5 $ROOT/demo-$PROP-$N-without.log; fi
 rm -f $DEST/zz_demo${N}_test.go
 git apply $OUT/change$N.diff
 echo "confirmed: demo_with=$DEMO_WITH demo_without=$DEMO_WO"
 cd /verif
 for c in $CHECKS; do
   echo "--- check $c against the change"
-  BW_REPO=$W ./bwsim check $c --tier quick 2>&1 | grep -v "^KNOWN-FINDING" | cut -c1-300 | head -${SEED_LINES:-8}
+  BW_REPO=$W BW_BUDGET_S=${SEED_BUDGET_S:-45} ./bwsim check $c --tier quick 2>&1 | grep -v "^KNOWN-FINDING" | cut -c1-300 | head -${SEED_LINES:-8}
   echo "exit=${PIPESTATUS[0]}"
 done
